@@ -2101,8 +2101,18 @@ class FlagsEnum(Adapter):
 
     def _emitseq(self, ksy, bitwise):
         bitstotal = self.subcon.sizeof() * 8
-        seq = []
+        # Kaitai bit fields are read most significant bit first, byte by byte in stream order:
+        # find which flag value occupies each stream bit by building the single-bit values
+        position = {}
         for i in range(bitstotal):
+            data = self.subcon.build(1<<i)
+            for j,b in enumerate(data):
+                for k in range(8):
+                    if b & (0x80 >> k):
+                        position[8*j+k] = i
+        seq = []
+        for p in range(bitstotal):
+            i = position[p]
             value = 1<<i
             name = self.reverseflags.get(value, "unknown_%s" % i)
             seq.append(dict(id=name, type="b1", doc=hex(value), _construct_render="Flag"))
